@@ -1,196 +1,4 @@
-(* Obligations over the regenerated tables of Gen/Sites.v. Each one is a closed boolean
-   computation over the whole (finite) table, discharged by [vm_compute]; the ones that other
-   proofs consume are lifted to statements about the members of the table with forallb_forall.
-   When the source changes in a way these tables see, the table changes and the computation is
-   redone against it: the lemma then either still holds or this file no longer compiles. *)
-From Coq Require Import String List Bool Arith.
-From Gen Require Import Sites.
-From Model Require Import SitesSpec.
-Import ListNotations.
-Open Scope string_scope.
-
-(* ------------------------------------------------------------------ roots *)
-
-Lemma sync_roots_expected : check_sync_roots = true.
-Proof. vm_compute; reflexivity. Qed.
-
-Lemma api_roots_expected : check_api_roots = true.
-Proof. vm_compute; reflexivity. Qed.
-
-(* ------------------------------------------------------------------ C02 *)
-
-(* every write reachable from the block application goes through the block's sql.Tx *)
-Lemma sync_writes_on_tx :
-  forallb (fun r => (eff_handle r =? "tx") && (eff_origin r =? "root")) (filter is_write effective_sql) = true.
-Proof. vm_compute; reflexivity. Qed.
-
-Lemma sync_writes_on_tx_forall :
-  forall r, In r effective_sql -> is_write r = true -> eff_handle r = "tx" /\ eff_origin r = "root".
-Proof.
-  intros r Hin Hw.
-  pose proof sync_writes_on_tx as H.
-  rewrite forallb_forall in H.
-  specialize (H r).
-  assert (Hf : In r (filter is_write effective_sql)) by (apply filter_In; split; assumption).
-  apply H in Hf. apply andb_true_iff in Hf. destruct Hf as [H1 H2].
-  split; apply String.eqb_eq; assumption.
-Qed.
-
-Lemma sync_handles_known : check_sync_handles_known = true.
-Proof. vm_compute; reflexivity. Qed.
-
-Lemma sync_handles_known_forall :
-  forall r, In r effective_sql -> on_tx r = true \/ on_pool r = true.
-Proof.
-  intros r Hin.
-  pose proof sync_handles_known as H. unfold check_sync_handles_known in H.
-  rewrite forallb_forall in H. apply H in Hin. apply orb_true_iff in Hin. exact Hin.
-Qed.
-
-(* the reads that see the committed database are exactly the expected ones *)
-Lemma sync_pool_reads_expected :
-  forallb (fun r => mem (eff_origin r) expected_pool_readers) (filter on_pool effective_sql) = true.
-Proof. vm_compute; reflexivity. Qed.
-
-Lemma sync_pool_reads_expected_forall :
-  forall r, In r effective_sql -> eff_handle r = "pool" ->
-            is_read r = true /\ In (eff_origin r) expected_pool_readers.
-Proof.
-  intros r Hin Hp.
-  assert (Hpool : on_pool r = true) by (unfold on_pool; rewrite Hp; reflexivity).
-  split.
-  - destruct (is_read r) eqn:E; [reflexivity|].
-    assert (Hw : is_write r = true) by (unfold is_write; rewrite E; reflexivity).
-    destruct (sync_writes_on_tx_forall r Hin Hw) as [Ht _]. rewrite Hp in Ht. discriminate Ht.
-  - pose proof sync_pool_reads_expected as H. rewrite forallb_forall in H.
-    assert (Hf : In r (filter on_pool effective_sql)) by (apply filter_In; split; assumption).
-    apply H in Hf. unfold mem in Hf. apply existsb_exists in Hf.
-    destruct Hf as [x [Hx Heq]]. apply String.eqb_eq in Heq. rewrite Heq. exact Hx.
-Qed.
-
-(* ... and each of them is still there (a pool read that was moved to the transaction is noticed) *)
-Lemma sync_pool_readers_present : check_sync_pool_readers_present = true.
-Proof. vm_compute; reflexivity. Qed.
-
-(* the callers of the pool readers inside the block application are exactly the expected ones *)
-Lemma pool_reader_calls_expected : check_pool_reader_calls = true.
-Proof. vm_compute; reflexivity. Qed.
-
-(* ------------------------------------------------------------------ C18 *)
-
-Lemma api_never_writes : forallb is_read api_effective_sql = true.
-Proof. vm_compute; reflexivity. Qed.
-
-Lemma api_never_writes_forall : forall r, In r api_effective_sql -> eff_rw r = "R".
-Proof.
-  intros r Hin. pose proof api_never_writes as H. rewrite forallb_forall in H.
-  apply H in Hin. apply String.eqb_eq. exact Hin.
-Qed.
-
-Lemma api_reads_pool_only : forallb on_pool api_effective_sql = true.
-Proof. vm_compute; reflexivity. Qed.
-
-Lemma api_reads_pool_only_forall : forall r, In r api_effective_sql -> eff_handle r = "pool".
-Proof.
-  intros r Hin. pose proof api_reads_pool_only as H. rewrite forallb_forall in H.
-  apply H in Hin. apply String.eqb_eq. exact Hin.
-Qed.
-
-Lemma api_nil_calls_expected : check_api_nil_calls = true.
-Proof. vm_compute; reflexivity. Qed.
-
-(* ------------------------------------------------------------------ C10 *)
-
-(* by (function, callee, how), not by hash: no dropped error result that is not expected *)
-Lemma discarded_errors_expected :
-  forallb (fun k => mem3 k expected_discarded_keys) discarded_keys = true.
-Proof. vm_compute; reflexivity. Qed.
-
-Lemma discarded_errors_expected_forall :
-  forall f c h x, In (f, c, h, x) discarded_errors ->
-                  exists n, In (f, c, h, n) expected_discarded.
-Proof.
-  intros f c h x Hin.
-  pose proof discarded_errors_expected as H. rewrite forallb_forall in H.
-  assert (Hk : In (f, c, h) discarded_keys).
-  { unfold discarded_keys. change (f, c, h) with (disc_key (f, c, h, x)). apply in_map. exact Hin. }
-  apply H in Hk. unfold mem3 in Hk. apply existsb_exists in Hk.
-  destruct Hk as [[[f' c'] h'] [Hx Heq]].
-  unfold eqb3 in Heq. apply andb_true_iff in Heq. destruct Heq as [Heq H3].
-  apply andb_true_iff in Heq. destruct Heq as [H1 H2].
-  apply String.eqb_eq in H1. apply String.eqb_eq in H2. apply String.eqb_eq in H3. subst.
-  unfold expected_discarded_keys in Hx. apply in_map_iff in Hx.
-  destruct Hx as [[[[f0 c0] h0] n] [Hk Hin']]. simpl in Hk. inversion Hk; subst.
-  exists n. exact Hin'.
-Qed.
-
-(* the converse inclusion, separately: a site that went away is noticed, without making the first
-   lemma fail *)
-Lemma discarded_errors_present :
-  forallb (fun k => mem3 k discarded_keys) expected_discarded_keys = true.
-Proof. vm_compute; reflexivity. Qed.
-
-(* and no further site of a kind already expected *)
-Lemma discarded_errors_counts : check_discarded_counts = true.
-Proof. vm_compute; reflexivity. Qed.
-
-(* ------------------------------------------------------------------ C01 *)
-
-Lemma map_ranges_expected :
-  forallb (fun k => mem2 k expected_map_ranges) map_range_keys = true.
-Proof. vm_compute; reflexivity. Qed.
-
-Lemma map_ranges_expected_forall :
-  forall f t c x, In (f, t, c, x) map_ranges -> In (f, c) expected_map_ranges.
-Proof.
-  intros f t c x Hin.
-  pose proof map_ranges_expected as H. rewrite forallb_forall in H.
-  assert (Hk : In (f, c) map_range_keys).
-  { unfold map_range_keys.
-    change (f, c) with ((fun r : string * string * string * string => match r with (f, _, c, _) => (f, c) end) (f, t, c, x)).
-    apply in_map. exact Hin. }
-  apply H in Hk. unfold mem2 in Hk. apply existsb_exists in Hk.
-  destruct Hk as [[f' c'] [Hx Heq]]. unfold eqb2 in Heq. simpl in Heq.
-  apply andb_true_iff in Heq. destruct Heq as [H1 H2].
-  apply String.eqb_eq in H1. apply String.eqb_eq in H2. subst. exact Hx.
-Qed.
-
-Lemma map_ranges_present :
-  forallb (fun k => mem2 k map_range_keys) expected_map_ranges = true.
-Proof. vm_compute; reflexivity. Qed.
-
-Lemma sort_calls_expected :
-  forallb (fun k => mem2 k expected_sort_calls) sort_call_keys = true.
-Proof. vm_compute; reflexivity. Qed.
-
-Lemma sort_calls_present :
-  forallb (fun k => mem2 k sort_call_keys) expected_sort_calls = true.
-Proof. vm_compute; reflexivity. Qed.
-
-(* ------------------------------------------------------------------ C18: shared fields *)
-
-(* the fields of Pegnetd / BlockSync written from the sync loop are exactly
-   { Sync.Synced, LastAverages, LastAveragesData, LastAveragesHeight } *)
-Lemma shared_fields_expected : check_sync_written_fields = true.
-Proof. vm_compute; reflexivity. Qed.
-
-Lemma shared_fields_no_other_writes : check_no_other_shared_writes = true.
-Proof. vm_compute; reflexivity. Qed.
-
-(* which of them the API also writes (the average cache, through get-rich-list / get-global-rich-list) *)
-Lemma shared_fields_api_writes : check_api_written_fields = true.
-Proof. vm_compute; reflexivity. Qed.
-
-(* ... and reads (all four) *)
-Lemma shared_fields_api_reads : check_api_read_sync_written = true.
-Proof. vm_compute; reflexivity. Qed.
-
-(* the locking discipline: no field is in an unprotected conflict between the sync loop and the API *)
-Lemma shared_fields_conflicts : check_conflicting_fields = true.
-Proof. vm_compute; reflexivity. Qed.
-
-(* ------------------------------------------------------------------ C02: durability settings *)
-Lemma journal_on_disk : check_journal_on_disk = true.
-Proof. vm_compute; reflexivity. Qed.
-Lemma synchronous_on : check_synchronous_on = true.
-Proof. vm_compute; reflexivity. Qed.
+(* Obligations over the regenerated tables of Gen/Sites.v, by [vm_compute] over the whole (finite) table.
+   One file per property, so that a table that no longer matches breaks only the property it belongs to. *)
+(* everything together; the Props files import only their own part *)
+From Lemmas Require Export SitesRoots SitesC01 SitesC02 SitesC10 SitesC18.
